@@ -35,8 +35,10 @@ def gen_case(rng):
     if mode == 'coarse':
         dst = rng.random() < 0.25
         g = gen.gen_grid(rng, freqs=['h', 'h', '30min', '2h', '15min'] if not dst else None, steps=(8, 40), dst=dst, hour_offsets=(0, 0, 6, 3))
-        if dst and g['freq'] == 'd':
+        if dst and g['freq'] == 'd' and rng.random() < 0.4:
+            # hourly grid over the switch: a DAILY coarse step of 23 / 25 hours
             g = gen.gen_grid(rng, freqs=['h'], steps=(30, 50), tzs=['CET'], anchors=['2021-03-27', '2021-10-30'], hour_offsets=(0,))
+        # (else: daily grid over the switch - fine steps of unequal length inside a coarse step of 2, 3 or 7 days)
     else:
         # (no daylight-saving switch in or next to the horizon: EAO rejects unequal periods, and places period / duration boundaries by
         #  absolute arithmetic from the grid start, which a switch on the day before shifts by an hour)
